@@ -412,6 +412,8 @@ def call_builtin(eng, fn, args, kwargs):
         return SInt(r)
     if fn is print:
         return None
+    if fn is id and len(args) == 1:
+        return id(a0)            # identity of the model object stands for the identity of the object it models
     if fn is hash and isinstance(a0, Sym):
         raise Unsupported('hash of symbolic')
     # numpy
@@ -488,7 +490,7 @@ def call_builtin(eng, fn, args, kwargs):
         return out
     # copy
     if fn is _copy.deepcopy:
-        return deepcopy(eng, a0)
+        return deepcopy(eng, a0, args[1] if len(args) > 1 and isinstance(args[1], dict) else kwargs.get('memo'))
     if fn is _copy.copy:
         return shallowcopy(a0)
     # re
@@ -533,6 +535,13 @@ def deepcopy(eng, v, memo=None):
     if id(v) in memo:
         return memo[id(v)]
     if isinstance(v, SObj):
+        import inspect as _inspect
+        hook = _inspect.getattr_static(v.cls, '__deepcopy__', None)
+        if isinstance(hook, types.FunctionType):
+            # the class copies itself: its own __deepcopy__ is interpreted
+            r = eng.call_function(hook, [v, memo], {})
+            memo[id(v)] = r
+            return r
         o = SObj(v.cls, {})
         memo[id(v)] = o
         for k, x in v.attrs.items():
